@@ -514,6 +514,18 @@ with needs (l : pvs) : nat :=
 with needm (l : pvm) : nat :=
   match l with MNil => O | MCons k v l' => S (Nat.max (need k) (Nat.max (need v) (needm l'))) end.
 
+(* no instance of a strict subclass anywhere in the value *)
+Fixpoint no_sub (v : pv) : bool :=
+  match v with
+  | VInt s _ | VFloat s _ | VDecimal s _ _ _ | VStr s _ | VBytes s _ | VUuid s _ | VQuoted s _ _ | VTimestamp s _ => negb s
+  | VSeq s _ l | VSet s l => negb s && no_subs l
+  | VMap s l => negb s && no_subm l
+  | _ => true
+  end
+with no_subs (l : pvs) : bool := match l with PNil => true | PCons v l' => no_sub v && no_subs l' end
+with no_subm (l : pvm) : bool := match l with MNil => true | MCons k v l' => no_sub k && no_sub v && no_subm l' end.
+
+
 (* boolean equalities, used by the correspondence harness only *)
 Variable feqb : F -> F -> bool.
 Fixpoint zlist_eqb (a b : list Z) : bool :=
